@@ -22,7 +22,7 @@ func init() { sim.Register(c15{}) }
 
 func (c15) ID() string     { return "C15" }
 func (c15) Level() string  { return "exploration" }
-func (c15) QuickRuns() int { return 8000 }
+func (c15) QuickRuns() int { return 120000 }
 func (c15) Rule() string {
 	return "each evaluation is one generated emitter history with listing generation on (instructions, label references, labels, comments of length 0-300, data blocks of length 0,1,15,16,17,31,32,33,...,255, optional base, optional tight capacity, Finalize) with 1-5 listing requests (text or hex) placed at arbitrary instants, each through a simulated sink with a seeded fault plan; distinct = distinct scenario hash; non-trivial = a sink fault fired, or a listing was requested after a refused emit, or a data block longer than 16 bytes was listed"
 }
